@@ -40,7 +40,7 @@ func (t *hashTable) add(pre []byte) [32]byte {
 	d := sha512.Sum512_256(pre)
 	if !t.seen[string(pre)] {
 		t.seen[string(pre)] = true
-		t.rows = append(t.rows, "("+coqout.Bytes(pre)+", "+coqout.Bytes(d[:])+")")
+		t.rows = append(t.rows, "("+coqBytes(pre)+", "+coqBytes(d[:])+")")
 	}
 	return d
 }
@@ -76,11 +76,32 @@ func dumpCoq(n *mkvs.VerifNode, internal *int) string {
 		return "DNil"
 	}
 	if n.Kind == 1 {
-		return "(DLeaf " + coqout.Bytes(n.Key) + " " + coqout.Bytes(n.Value) + ")"
+		return "(DLeaf " + coqBytes(n.Key) + " " + coqBytes(n.Value) + ")"
 	}
 	*internal++
-	return fmt.Sprintf("(DNode %d %s %s %s %s)", n.LabelBitLength, coqout.Bytes(n.Label),
+	return fmt.Sprintf("(DNode %d %s %s %s %s)", n.LabelBitLength, coqBytes(n.Label),
 		dumpCoq(n.Leaf, internal), dumpCoq(n.Left, internal), dumpCoq(n.Right, internal))
+}
+
+func dumpContents(n *mkvs.VerifNode, into map[string][]byte) {
+	if n == nil || n.Kind == 0 {
+		return
+	}
+	if n.Kind == 1 {
+		into[string(n.Key)] = n.Value
+		return
+	}
+	dumpContents(n.Leaf, into)
+	dumpContents(n.Left, into)
+	dumpContents(n.Right, into)
+}
+
+func showMap(m map[string][]byte) string {
+	var s []string
+	for _, k := range sortedKeys(m) {
+		s = append(s, fmt.Sprintf("%x=%x", k, m[k]))
+	}
+	return "{" + strings.Join(s, " ") + "}"
 }
 
 // ---------- running one case on the implementation ----------
@@ -100,6 +121,7 @@ type res02 struct {
 	commits  int
 	reopens  int
 	eff      []Op // the operations actually performed (illegal reopens skipped)
+	cut      int  // with a violation: the number of leading operations that produced it
 }
 
 func (r *res02) finalRoot() []byte {
@@ -122,7 +144,7 @@ func (r *res02) term() string {
 	if len(r.roots) > 0 {
 		var rs []string
 		for _, h := range r.roots {
-			rs = append(rs, coqout.Bytes(h))
+			rs = append(rs, coqBytes(h))
 		}
 		roots = coqout.List(rs)
 	}
@@ -165,14 +187,18 @@ func runC02(c Case) (res *res02) {
 	res = &res02{table: newHashTable(), ref: map[string][]byte{}, used: map[string]bool{}, stats: counts{}, dumpStr: "DNil"}
 	var e *env
 	var tree mkvs.Tree
+	at := -1 // index of the operation being performed
 	fail := func(kind, f string, a ...any) {
 		if res.viol == nil {
 			res.viol = &violation{kind: kind, what: fmt.Sprintf(f, a...)}
+			res.cut = at + 1
 		}
 	}
 	defer func() {
 		if p := recover(); p != nil {
 			res.viol = &violation{kind: "panic", what: fmt.Sprintf("implementation panicked: %v", p)}
+			res.cut = at + 1
+			debugStack()
 			res.panicked = true
 		}
 		if tree != nil {
@@ -192,6 +218,7 @@ func runC02(c Case) (res *res02) {
 	feat := map[string]bool{}
 	noteKey := func(k []byte) {
 		res.used[string(k)] = true
+		res.stats.countKey(k)
 		if len(k) == 0 {
 			feat["has_empty_key"] = true
 		}
@@ -201,11 +228,12 @@ func runC02(c Case) (res *res02) {
 	}
 	refIns := func(k, v []byte) {
 		noteKey(k)
+		res.stats.countVal(v)
 		if len(v) == 0 {
 			feat["has_empty_value"] = true
 		}
 		res.ref[string(k)] = v
-		res.coqOps = append(res.coqOps, "CIns "+coqout.Bytes(k)+" "+coqout.Bytes(v))
+		res.coqOps = append(res.coqOps, "CIns "+coqBytes(k)+" "+coqBytes(v))
 	}
 	refRem := func(k []byte) {
 		noteKey(k)
@@ -218,9 +246,10 @@ func runC02(c Case) (res *res02) {
 				feat["removed_to_empty"] = true
 			}
 		}
-		res.coqOps = append(res.coqOps, "CRem "+coqout.Bytes(k))
+		res.coqOps = append(res.coqOps, "CRem "+coqBytes(k))
 	}
-	for _, o := range c.Ops {
+	for i, o := range c.Ops {
+		at = i
 		switch o.K {
 		case "ins":
 			if err = tree.Insert(ctx, nn(o.Key), nn(o.Val)); err != nil {
@@ -309,6 +338,12 @@ func runC02(c Case) (res *res02) {
 			res.internal = 0
 			res.dumpStr = dumpCoq(d, &res.internal)
 			justCommitted = true
+			// S(4): what was committed is exactly the reference contents
+			got := map[string][]byte{}
+			dumpContents(d, got)
+			if canonContents(got) != canonContents(res.ref) {
+				fail("commit-contents", "the tree committed at version %d holds %s, the reference map holds %s", version-1, showMap(got), showMap(res.ref))
+			}
 		case "reopen":
 			if !justCommitted || e.ndb == nil {
 				continue // not legal here (only produced by shrinking): skipped
@@ -323,6 +358,7 @@ func runC02(c Case) (res *res02) {
 		res.eff = append(res.eff, o)
 		res.stats.add("op_kinds", o.K)
 	}
+	at = len(c.Ops) - 1
 	// S(3): Get of every key ever used agrees with the reference map
 	var keys []string
 	for k := range res.used {
@@ -571,79 +607,54 @@ func twinWriteLog(r *prng.R, base Case, br *res02) Case {
 
 // ---------- shrinking ----------
 
-const shrinkBudget = 600
-
 // shrink02 greedily drops operations while the oracle reports the same kind of violation.
-func shrink02(c Case, kind string) Case {
-	budget := shrinkBudget
-	for changed := true; changed && budget > 0; {
-		changed = false
-		for i := 0; i < len(c.Ops) && budget > 0; i++ {
-			cand := normalize02(c.withOps(dropOp(c.Ops, i)))
-			if len(cand.Ops) >= len(c.Ops) {
-				continue
-			}
-			budget--
-			if r := runC02(cand); r.viol != nil && r.viol.kind == kind {
-				c = cand.withOps(r.effOr(cand.Ops))
-				changed = true
-				i--
-			}
+func shrink02(c Case, kind string, cut int) Case {
+	test := func(ops []Op) ([]Op, bool) {
+		cand := normalize02(c.withOps(ops))
+		r := runC02(cand)
+		if r.viol == nil || r.viol.kind != kind {
+			return nil, false
+		}
+		if r.panicked || kind == "error" {
+			return cand.Ops, true // the run stopped early: keep the description as it is
+		}
+		return r.eff, true
+	}
+	ops := c.Ops
+	if cut > 0 && cut < len(ops) {
+		// first drop everything after the operation at which the violation showed
+		if eff, ok := test(ops[:cut]); ok && len(eff) < len(ops) {
+			ops = eff
 		}
 	}
-	return c
-}
-
-func (r *res02) effOr(ops []Op) []Op {
-	if r.panicked || r.viol != nil && r.viol.kind == "error" {
-		return ops // the run stopped early: keep the description as it is
-	}
-	return r.eff
+	return c.withOps(shrinkOps(ops, test))
 }
 
 // shrinkPair greedily drops operations of either case while both still run
 // cleanly and pred holds on the pair.
 func shrinkPair(a, b Case, pred func(ra, rb *res02) bool) (Case, Case) {
-	budget := shrinkBudget
 	ra, rb := runC02(a), runC02(b)
 	if ra.viol != nil || rb.viol != nil || !pred(ra, rb) {
 		return a, b // not reproducible in isolation: report un-shrunk
 	}
-	for changed := true; changed && budget > 0; {
-		changed = false
-		for side := 0; side < 2; side++ {
-			cur := &a
-			if side == 1 {
-				cur = &b
+	for round := 0; round < 2; round++ {
+		a.Ops = shrinkOps(a.Ops, func(ops []Op) ([]Op, bool) {
+			rc := runC02(normalize02(a.withOps(ops)))
+			if rc.viol != nil || !pred(rc, rb) {
+				return nil, false
 			}
-			for i := 0; i < len(cur.Ops) && budget > 0; i++ {
-				cand := normalize02(cur.withOps(dropOp(cur.Ops, i)))
-				if len(cand.Ops) >= len(cur.Ops) {
-					continue
-				}
-				budget--
-				rc := runC02(cand)
-				if rc.viol != nil {
-					continue
-				}
-				ok := false
-				if side == 0 {
-					ok = pred(rc, rb)
-				} else {
-					ok = pred(ra, rc)
-				}
-				if ok {
-					*cur = cand.withOps(rc.eff)
-					if side == 0 {
-						ra = rc
-					} else {
-						rb = rc
-					}
-					changed = true
-					i--
-				}
+			ra = rc
+			return rc.eff, true
+		})
+		ra = runC02(a)
+		b.Ops = shrinkOps(b.Ops, func(ops []Op) ([]Op, bool) {
+			rc := runC02(normalize02(b.withOps(ops)))
+			if rc.viol != nil || !pred(ra, rc) {
+				return nil, false
 			}
-		}
+			return rc.eff, true
+		})
+		rb = runC02(b)
 	}
 	return a, b
 }
@@ -704,12 +715,15 @@ func (s *session02) process(c Case, base *Case, br *res02) (*res02, int) {
 		s.sum.Sample(map[string]any{"desc": c, "root": hex.EncodeToString(r.finalRoot())}, 3)
 	}
 	if r.viol != nil {
-		sc := shrink02(c, r.viol.kind)
-		what := r.viol.what
-		if r2 := runC02(sc); r2.viol != nil {
-			what = r2.viol.what
+		s.sum.Count("violations", r.viol.kind+"/"+c.Backend)
+		sc, what := c, r.viol.what
+		if firstOfItsKind(r.viol.kind, c) {
+			sc = shrink02(c, r.viol.kind, r.cut)
+			if r2 := runC02(sc); r2.viol != nil {
+				what = r2.viol.what
+			}
 		}
-		s.sum.Violations = append(s.sum.Violations, map[string]any{"what": what, "case": sc})
+		s.sum.Violations = append(s.sum.Violations, map[string]any{"what": what, "case": sc, "evicting_config": evicting(c)})
 		return r, idx
 	}
 	// S(1): a twin ends at its base's root
